@@ -109,16 +109,20 @@ structure HState where
 
 def HState.init : HState := ⟨⟨⟨[], []⟩, []⟩, none, false⟩
 
-/-- the application of one batch's configuration -/
-def applyOp (plus : Bool) (o : HOp) (a : Ngx) : Ngx × Bool :=
+/-- the application of one batch's configuration. `lastErr` = `h.latestReloadResult.Error != nil` when the batch
+starts: the EndpointsOnlyChange arm is `if h.cfg.plus && h.latestReloadResult.Error == nil { updateUpstreamServers }
+else { updateNginxConf }` (since /repo c94173a: after a failed write/reload NGINX does not run the configuration the
+API calls would adjust, so the arm goes through the files and a reload again). -/
+def applyOp (plus lastErr : Bool) (o : HOp) (a : Ngx) : Ngx × Bool :=
   match o.kind with
   | .cluster => updateNginxConfF plus o.faults o.conf a
-  | .endpoints => if plus then updateUpstreamServersF o.faults o.conf a else updateNginxConfF plus o.faults o.conf a
+  | .endpoints =>
+    if plus && !lastErr then updateUpstreamServersF o.faults o.conf a else updateNginxConfF plus o.faults o.conf a
 
 /-- `HandleEventBatch` for a batch with a change. Second component: the batch recorded an error
 (`logger.Error(err, "Failed to update NGINX configuration")`, `nginxReloadRes.Error = err`). -/
 def stepH (plus : Bool) (s : HState) (o : HOp) : HState × Bool :=
-  let r := applyOp plus o s.ngx
+  let r := applyOp plus s.lastErr o s.ngx
   ({ ngx := r.1, latest := some o.conf, lastErr := r.2 }, r.2)
 
 def runH (plus : Bool) (s : HState) : List HOp → HState
@@ -132,6 +136,19 @@ def traceH (plus : Bool) (s : HState) : List HOp → List (HState × Bool)
 
 /-- the batch is QUIET: the handler recorded no error for it -/
 def quiet (r : HState × Bool) : Bool := !r.2
+
+/-! ### PRE-FIX variant (before /repo c94173a; NOT what the code does — kept as a regression detector)
+
+The EndpointsOnlyChange arm was `if h.cfg.plus { updateUpstreamServers } else { updateNginxConf }`: it did not look at
+`latestReloadResult` (known finding `C13:plus_quiet_after_failed_reload`, now fixed). -/
+
+def stepHPre (plus : Bool) (s : HState) (o : HOp) : HState × Bool :=
+  let r := applyOp plus false o s.ngx
+  ({ ngx := r.1, latest := some o.conf, lastErr := r.2 }, r.2)
+
+def traceHPre (plus : Bool) (s : HState) : List HOp → List (HState × Bool)
+  | [] => []
+  | o :: os => stepHPre plus s o :: traceHPre plus (stepHPre plus s o).1 os
 
 /-! ### the property on the held state (executable; the driver's judge runs these on the REAL views) -/
 
